@@ -634,6 +634,20 @@ CHECKS["C17"].update(
          "generated/mutated proto; a leaf oracle compares every dimension/payload the library reads with an independent "
          "reading of the proto.")
 
+CHECKS["C04"].update(
+    text="All representation theorems (dtype/shape, numpy values, little-endian packed bytes, tofile under every copy "
+         "schedule, external data at any offset, serialization, nbytes) proved in Coq for all dtypes/sizes/values over (a) "
+         "dtype tables and dispatch sets re-extracted from _enums/_core/serde, (b) the statement-by-statement translation of "
+         "_type_casting.py (pack/unpack 4-bit and 2-bit, regenerated on every run) proved equal to its recursion form for "
+         "every input and target size (C04_type_casting_translated), and (c) a hand model of the representations with nbytes "
+         "as computed by the code; tied by in-Coq evaluation of the model on real numpy()/tobytes()/tofile()/nbytes "
+         "observations and on direct calls of the translated functions (strided, 2-D, Fortran-order inputs; every dims case).",
+    note=TRUST + "Modelled, not verified: the numpy primitives of C04/Np.v (slicing, resize, in-place ops), ml_dtypes storage "
+         "(checked on all 256 bytes each run), protobuf, mmap, copy_file_range, torch memory, Python files; byte-order "
+         "branches are shape-checked and a little-endian machine is assumed.",
+    technique="Coq proof over translated tables and translated packing code plus hand model; vm_compute correspondence; ONNX "
+              "reference encoder and decoder as third voice")
+
 
 def main():
     props = [json.loads(l) for l in open(os.path.join(VERIF, "properties.jsonl"))]
